@@ -1,19 +1,19 @@
 /-
-  `WInv` (Proofs/NodeWdog.lean) along the receive path, the worker pumps and the
+  `WdInv` (Proofs/NodeWdog.lean) along the receive path, the worker pumps and the
   I/O loop.
 -/
 import DV.Proofs.NodeWdog
 import DV.Model.NodeOps
 namespace DV.Node
 
-theorem w_receiveAppRequest (s : St) (cid : Nat) (m : AMsg) (info : MsgInfo) (h : WInv s) : WInv (receiveAppRequest s cid m info).1 := by
+theorem w_receiveAppRequest (s : St) (cid : Nat) (m : AMsg) (info : MsgInfo) (h : WdInv s) : WdInv (receiveAppRequest s cid m info).1 := by
   unfold receiveAppRequest
   repeat (first
     | w_hyp | w_triv | w_lit | split | dsimp only
     | with_reducible apply w_sendMessage
     | with_reducible apply w_appReceiveRequest)
 
-theorem w_handleByCommand (s : St) (cid : Nat) (m : AMsg) (info : MsgInfo) (h : WInv s) : WInv (handleByCommand s cid m info).1 := by
+theorem w_handleByCommand (s : St) (cid : Nat) (m : AMsg) (info : MsgInfo) (h : WdInv s) : WdInv (handleByCommand s cid m info).1 := by
   unfold handleByCommand
   repeat (first
     | w_hyp | w_triv | w_lit | split | dsimp only
@@ -21,10 +21,10 @@ theorem w_handleByCommand (s : St) (cid : Nat) (m : AMsg) (info : MsgInfo) (h : 
     | with_reducible apply w_receiveDwr | with_reducible apply w_receiveDwa | with_reducible apply w_receiveDpr
     | with_reducible apply w_receiveDpa | with_reducible apply w_receiveAppRequest | with_reducible apply w_receiveAppAnswer)
 
-theorem w_receiveMessage (s : St) (cid : Nat) (m : AMsg) (info : MsgInfo) (h : WInv s) : WInv (receiveMessage s cid m info) := by
+theorem w_receiveMessage (s : St) (cid : Nat) (m : AMsg) (info : MsgInfo) (h : WdInv s) : WdInv (receiveMessage s cid m info) := by
   unfold receiveMessage
   dsimp only
-  have h1 : WInv (recordOrigin s cid m info) := w_recordOrigin _ _ _ _ h
+  have h1 : WdInv (recordOrigin s cid m info) := w_recordOrigin _ _ _ _ h
   have hb := w_handleByCommand (recordOrigin s cid m info) cid m info h1
   split
   · exact w_crashReader _ _ _ h1
@@ -47,11 +47,11 @@ theorem w_receiveMessage (s : St) (cid : Nat) (m : AMsg) (info : MsgInfo) (h : W
             · exact w_sendMessage _ _ _ _ hb
             · exact w_crashReader _ _ _ (w_sendMessage _ _ _ _ hb)
 
-theorem w_dispatchMessage (s : St) (cid : Nat) (m : AMsg) (info : MsgInfo) (h : WInv s) : WInv (dispatchMessage s cid m info) := by
+theorem w_dispatchMessage (s : St) (cid : Nat) (m : AMsg) (info : MsgInfo) (h : WdInv s) : WdInv (dispatchMessage s cid m info) := by
   unfold dispatchMessage
   repeat (first | exact h | exact w_receiveMessage s cid m info h | split)
 
-theorem w_pumpReader (infoOf : AMsg → MsgInfo) (s : St) (cid : Nat) (h : WInv s) : WInv (pumpReader infoOf s cid) := by
+theorem w_pumpReader (infoOf : AMsg → MsgInfo) (s : St) (cid : Nat) (h : WdInv s) : WdInv (pumpReader infoOf s cid) := by
   unfold pumpReader
   split
   · exact h
@@ -65,7 +65,7 @@ theorem w_pumpReader (infoOf : AMsg → MsgInfo) (s : St) (cid : Nat) (h : WInv 
           repeat (first | exact hs | exact w_dispatchMessage s cid a (infoOf a) hs | split)
         · exact w_modConn _ _ _ (by tamew) h
 
-theorem w_pumpAll (infoOf : AMsg → MsgInfo) (s : St) (h : WInv s) : WInv (pumpAll infoOf s) := by
+theorem w_pumpAll (infoOf : AMsg → MsgInfo) (s : St) (h : WdInv s) : WdInv (pumpAll infoOf s) := by
   unfold pumpAll
   dsimp only
   apply w_foldl
@@ -79,7 +79,7 @@ theorem w_pumpAll (infoOf : AMsg → MsgInfo) (s : St) (h : WInv s) : WInv (pump
       · exact hs
     · exact h
 
-theorem w_handleReadable (w : World) (cid : Nat) (h : WInv w.st) : WInv (handleReadable w cid).st := by
+theorem w_handleReadable (w : World) (cid : Nat) (h : WdInv w.st) : WdInv (handleReadable w cid).st := by
   unfold handleReadable
   have hst : (w.popRx cid).1.st = w.st := popRx_st w cid
   split
@@ -97,11 +97,11 @@ theorem w_handleReadable (w : World) (cid : Nat) (h : WInv w.st) : WInv (handleR
     · exact w_modConn _ _ _ (by tamew) h
     · exact w_modConn _ _ _ (by tamew) h
 
-theorem w_ioIteration (w : World) (h : WInv w.st) : WInv (ioIteration w).st := by
+theorem w_ioIteration (w : World) (h : WdInv w.st) : WdInv (ioIteration w).st := by
   unfold ioIteration
   dsimp only
   generalize hW : List.foldl handleWritable _ _ = W
-  have hWs : WInv W.st := by
+  have hWs : WdInv W.st := by
     rw [← hW]
     apply w_foldlW _ (fun w a hw => w_handleWritable w a hw)
     apply w_foldlW _ (fun w a hw => w_handleReadable w a hw)
@@ -113,19 +113,19 @@ theorem w_ioIteration (w : World) (h : WInv w.st) : WInv (ioIteration w).st := b
       | dsimp only)
   exact w_reconnectPeers _ (w_foldl _ (fun s a hs => w_checkTimers s a hs) _ _ hWs)
 
-theorem w_settle (infoOf : AMsg → MsgInfo) (n : Nat) (w : World) (h : WInv w.st) : WInv (settle infoOf n w).st := by
+theorem w_settle (infoOf : AMsg → MsgInfo) (n : Nat) (w : World) (h : WdInv w.st) : WdInv (settle infoOf n w).st := by
   induction n generalizing w with
   | zero => exact h
   | succ n ih =>
     unfold settle
     dsimp only
-    have h2 : WInv ({ ioIteration w with st := pumpAll infoOf (ioIteration w).st } : World).st := w_pumpAll infoOf _ (w_ioIteration w h)
+    have h2 : WdInv ({ ioIteration w with st := pumpAll infoOf (ioIteration w).st } : World).st := w_pumpAll infoOf _ (w_ioIteration w h)
     split
     · exact ih _ h2
     · exact h2
 
 /-- the clock only moves forward: stamps stay in the past -/
-theorem w_advance (s : St) (dt : Nat) (h : WInv s) : WInv ({ s with now := s.now + dt } : St) := by
+theorem w_advance (s : St) (dt : Nat) (h : WdInv s) : WdInv ({ s with now := s.now + dt } : St) := by
   refine ⟨Nat.lt_of_lt_of_le h.1 (Nat.le_add_right _ _), ?_⟩
   intro c hc hst
   have := h.2 c hc hst
